@@ -252,11 +252,13 @@ def phylo_operators(rng, mix, adapt):
                              ("substmodel.kappa.unres", 1.0), ("branchmodel.rate.unres", 1.0)):
                 ops.append({"id": pid + ".operator", "type": "SlidingWindowOperator", "parameters": pid,
                             "weight": wgt / 2, "width": 0.5, "disable_adaptation": da})
-        elif k == "block":
+        elif k in ("block", "block_unit"):
+            # block_unit: the documented special value scaler = 1 (the precision is not proposed until tuning moves it)
             ops.append({"id": "coalescent.theta.log.operator",
                         "type": "GMRFPiecewiseCoalescentBlockUpdatingOperator",
                         "coalescent": "coalescent", "gmrf": "gmrf", "weight": 3.0,
-                        "scaler": round(rng.uniform(1.5, 2.5), 2), "disable_adaptation": da})
+                        "scaler": 1.0 if k == "block_unit" else round(rng.uniform(1.5, 2.5), 2),
+                        "disable_adaptation": da})
         elif k == "dirichlet":
             ops.append({"id": "freq.operator", "type": "DirichletOperator",
                         "parameters": "substmodel.frequencies", "weight": 2.0,
@@ -323,6 +325,7 @@ def plan(tier, seed):
     add("phylo", ["sliding_cli", "block", "dirichlet", "scaler", "hmc"], True, n(200, 1500), 1)
     add("phylo", ["sliding_cli", "block", "dirichlet", "hmc"], False, n(100, 600), 5)
     add("phylo-cli", ["sliding_cli", "block"], True, n(120, 600), 1)
+    add("phylo", ["block_unit", "sliding_cli"], True, n(120, 600), 1)
     if not q:
         for _ in range(4):
             mix = rng.sample(["scaler", "scaler_rev", "sliding", "dirichlet", "hmc", "hmc_adaptive", "hmc_dual", "hmc_rate"],
@@ -1001,7 +1004,12 @@ def check_run(ri, run, fresh):
                         f"but tune() changed {('the concentration scaler' if kind == 'DirichletOperator' else 'the tuned field')} "
                         f"{sb['field']!r} -> {sa['field']!r}: proposal spread {s0:.6g} -> {s1:.6g} (more timid)",
                         "tuning", k)
-                if c["ap"] < tgt and s1 > s0 * (1 + 1e-12):
+                # (the block operator tunes v with scaler = 1 + v^2: the re-parameterisation is monotone only for
+                #  v >= 0, the hypothesis of tuning_direction_below; a step that takes v below 0 — possible only right
+                #  at the documented special value scaler = 1 — is outside the clause)
+                crosses = kind.startswith("GMRF") and \
+                    math.sqrt(max(sb["field"] - 1.0, 0.0)) + (c["ap"] - tgt) / (2 + sb["count"]) < 0.0
+                if c["ap"] < tgt and s1 > s0 * (1 + 1e-12) and not crosses:
                     add(f"C15:tuning-direction:{kind}",
                         f"iteration {k + 1} ({c['op_id']}): acceptance probability {c['ap']:.4g} below target {tgt} "
                         f"but tune() changed the tuned field {sb['field']!r} -> {sa['field']!r}: proposal spread "
@@ -1375,6 +1383,52 @@ def sync():
     return True, units
 
 
+def momentum_distribution_findings(seed, tier):
+    """The Hastings term of the HMC operator (difference of kinetic energies p^T M^-1 p / 2) is the log ratio of the
+    densities of the momenta only if the momentum is drawn from N(0, M).  N draws through the public
+    Hamiltonian.sample_momentum for diagonal and DENSE mass matrices (strongly correlated ones): mean and every entry
+    of the sample covariance within 6 standard errors of 0 and M (Var S_ij = (M_ii M_jj + M_ij^2) / N; a false alarm
+    has probability below 1e-7 per run).  -> ([finding], number of draws)"""
+    torch = impl.load()
+    from torchtree.core.utils import process_object
+    torch.manual_seed(seed + 101)
+    N = 4000 if tier == "quick" else 40000
+    found = []
+    dic = {}
+    for o in ({"id": "y", "type": "Parameter", "tensor": [0.0, 0.0]},
+              {"id": "d", "type": "Distribution", "distribution": "torch.distributions.Normal", "x": "y",
+               "parameters": {"loc": [0.0, 0.0], "scale": [1.0, 1.0]}},
+              {"id": "joint", "type": "JointDistributionModel", "distributions": ["d"]},
+              {"id": "ham", "type": "Hamiltonian", "joint": "joint"}):
+        process_object(o, dic)
+    ham = dic["ham"]
+    for tag, M in (("diagonal", torch.tensor([4.0, 0.25])),
+                   ("dense", torch.tensor([[4.0, 1.9], [1.9, 1.0]])),
+                   ("dense", torch.tensor([[0.5, -0.6], [-0.6, 2.0]]))):
+        try:
+            ps = torch.stack([ham.sample_momentum(M).detach().reshape(-1) for _ in range(N)])
+        except Exception as e:      # noqa
+            found.append((f"C15:momentum:{tag}:raises:{type(e).__name__}", f"{type(e).__name__}: {str(e)[:160]}", dict(M=M.tolist())))
+            continue
+        Mf = torch.diag(M) if M.dim() == 1 else M
+        mean = ps.mean(0)
+        S = (ps.t() @ ps) / N
+        bad = None
+        for i in range(2):
+            if abs(float(mean[i])) > 6 * math.sqrt(float(Mf[i, i]) / N):
+                bad = f"mean of coordinate {i} = {float(mean[i]):.4g} over {N} draws"
+            for j in range(2):
+                se = math.sqrt((float(Mf[i, i]) * float(Mf[j, j]) + float(Mf[i, j]) ** 2) / N)
+                if abs(float(S[i, j]) - float(Mf[i, j])) > 6 * se:
+                    bad = (f"second moment ({i},{j}) = {float(S[i, j]):.4g} over {N} draws, the mass matrix has "
+                           f"{float(Mf[i, j]):.4g} (standard error {se:.2g})")
+        if bad:
+            found.append((f"C15:momentum-is-not-drawn-from-the-mass-matrix:{tag}",
+                          f"Hamiltonian.sample_momentum with the {tag} mass matrix {M.tolist()}: {bad}",
+                          dict(mass_matrix=M.tolist(), draws=N, torch_seed=seed + 101)))
+    return found, 3 * N
+
+
 def run(tier, seed, replay=None):
     rep = C.Report(PID, tier, seed)
     rep.trusted = C.COMMON_TRUSTED + [
@@ -1468,6 +1522,9 @@ def run(tier, seed, replay=None):
         raise RuntimeError("harness error in the proof phase:\n" + pstate["crash"])
     proved = pstate["proved"]
     for f in search():
+        rep.violation(*f)
+    mom_fs, n_mom = momentum_distribution_findings(seed, tier)
+    for f in mom_fs:
         rep.violation(*f)
 
     # ---- obligation about the regenerated Dirichlet re-parameterisation -------------------------
